@@ -75,11 +75,59 @@ func runConvCase(raw json.RawMessage, w *TraceWriter) {
 		inplace := len(cur) > len(out) && len(out) > 0 && dataPtr(cur) == dataPtr(out)
 		w.Ev("appendchk", "added", k, "inplace", inplace, "srcintact", s == string(ref) && big == string(bigRef))
 	}
+	// BinaryToString on a caller's scratch buffer, the result kept beyond the caller's frame
+	if c.Shape == "whole" && c.N <= 48 {
+		for k, f := range []func(int, int) string{convFromLocalArray, convFromConstMake} {
+			kept := f(c.N%250, c.N)
+			useSomeStack(3)
+			want := string(PatBytes(c.N%250, 0, c.N))
+			w.Ev("conv", "fn", []string{"b2s-local-array", "b2s-const-make"}[k], "in", Raw(fmt.Sprintf(`{"len":%d,"cap":%d}`, c.N, 48+16*k)),
+				"out", Raw(fmt.Sprintf(`{"len":%d,"cap":%d}`, len(kept), len(kept))), "sameptr", true, "content", kept == want)
+		}
+	}
 	// BinaryToString
 	bref := append([]byte(nil), b...)
 	str := unsafex.BinaryToString(b)
 	w.Ev("conv", "fn", "b2s", "in", Raw(fmt.Sprintf(`{"len":%d,"cap":%d}`, len(b), cap(b))), "out", Raw(fmt.Sprintf(`{"len":%d,"cap":%d}`, len(str), len(str))),
 		"sameptr", len(b) > 0 && uintptr(unsafe.Pointer(unsafe.StringData(str))) == dataPtr(b), "content", str == string(bref))
+}
+
+// a caller that formats into a fixed-size scratch buffer and returns the converted string: the string must outlive the
+// caller's frame (the conversion must keep the aliasing visible to the compiler, so that the buffer is heap-allocated)
+//
+//go:noinline
+func convFromLocalArray(seed, n int) string {
+	var buf [48]byte
+	b := buf[:0]
+	for i := 0; i < n && i < len(buf); i++ {
+		b = append(b, PatByte(seed, i))
+	}
+	return unsafex.BinaryToString(b)
+}
+
+//go:noinline
+func convFromConstMake(seed, n int) string {
+	b := make([]byte, 0, 64)
+	for i := 0; i < n && i < 64; i++ {
+		b = append(b, PatByte(seed, i))
+	}
+	return unsafex.BinaryToString(b)
+}
+
+//go:noinline
+func useSomeStack(d int) int {
+	var junk [768]byte
+	for i := range junk {
+		junk[i] = byte(i*31 + d)
+	}
+	x := 0
+	for _, v := range junk {
+		x += int(v)
+	}
+	if d > 0 {
+		return x + useSomeStack(d-1)
+	}
+	return x
 }
 
 func sigConv(raw json.RawMessage, line string) string {
@@ -95,7 +143,7 @@ func sigConv(raw json.RawMessage, line string) string {
 var famConv = Register(&Family{Name: "conv", Spec: "Trace_MemViews", Cfg: "Trace_MemViews.cfg", Run: runConvCase, Sig: sigConv})
 
 func checkC20(c *Ctx) {
-	c.rule = "MC: all input shapes (whole string, substring of a larger string, empty) x conversion/append histories of 4 steps: no write lands in string memory when cap = len (and TLC finds the violation when the design keeps the backing array's capacity). TRACE: every shape (whole, substring, spare capacity, empty, nil) x lengths 0..5000 x append histories, and a grid of lengths (0..16 MiB, thorough 64 MiB, incl. 2^16 and 2^20 +-1) x spare capacities (0..1 MiB) of the backing array on the StringToBinary result; TLC checks len/cap/content/shared pointer and that appends never happen in place."
+	c.rule = "MC: all input shapes (whole string, substring of a larger string, empty) x conversion/append histories of 4 steps: no write lands in string memory when cap = len (and TLC finds the violation when the design keeps the backing array's capacity). TRACE: every shape (whole, substring, spare capacity, empty, nil) x lengths 0..5000 x append histories, and a grid of lengths (0..16 MiB, thorough 64 MiB, incl. 2^16 and 2^20 +-1) x spare capacities (0..1 MiB) of the backing array on the StringToBinary result; TLC checks len/cap/content/shared pointer and that appends never happen in place; strings converted from a caller's fixed-size scratch buffer are kept beyond the caller's frame and re-compared."
 	c.MC("MC_MemViews.tla", "MC_MemViews.cfg", 4)
 	var cases []json.RawMessage
 	rng := rand.New(rand.NewSource(c.Seed + 20))
@@ -149,6 +197,10 @@ type IndepCase struct {
 	Lens  []int  `json:"lens"`
 	Seed  int64  `json:"seed"`
 	Kinds []int  `json:"kinds"` // 0 string, 1 binary
+	// Hdr: a container header (map<string,string>) precedes the values and is read first; Same: all values carry the same
+	// bytes (equal lengths => identical contents), as repeated keys / values of a real container do
+	Hdr  bool `json:"hdr,omitempty"`
+	Same bool `json:"same,omitempty"`
 }
 
 type decRec struct {
@@ -168,10 +220,20 @@ func runIndepCase(raw json.RawMessage, w *TraceWriter) {
 	// input: a sequence of encoded strings
 	var in []byte
 	var offs []int
+	pat := func(i, n int) []byte {
+		if c.Same {
+			return PatBytes(1, 0, n)
+		}
+		return PatBytes(i+1, 0, n)
+	}
+	if c.Hdr {
+		in = thrift.Binary.AppendMapBegin(in, thrift.STRING, thrift.STRING, (len(c.Lens)+1)/2)
+	}
+	hdrLen := len(in)
 	for i, n := range c.Lens {
 		offs = append(offs, len(in))
 		in = append(in, byte(n>>24), byte(n>>16), byte(n>>8), byte(n))
-		in = append(in, PatBytes(i+1, 0, n)...)
+		in = append(in, pat(i, n)...)
 	}
 	if c.API != "buffer" {
 		// bytes the stream reader has buffered but nobody reads: Release has to move them to the front of its buffer
@@ -194,7 +256,12 @@ func runIndepCase(raw json.RawMessage, w *TraceWriter) {
 			br = thrift.NewBufferReader(rd)
 			defer br.Recycle()
 		}
-		off := 0
+		off := hdrLen
+		if c.Hdr && br != nil {
+			if _, _, _, err := br.ReadMapBegin(); err != nil {
+				return recs
+			}
+		}
 		for i, n := range c.Lens {
 			var res []byte
 			isStr := c.Kinds[i%len(c.Kinds)] == 0
@@ -233,7 +300,16 @@ func runIndepCase(raw json.RawMessage, w *TraceWriter) {
 			if isStr {
 				cp = len(res)
 			}
-			recs = append(recs, decRec{addr: dataPtr(res), ln: len(res), cp: cp, b: res, ref: PatBytes(i+1, 0, n), isStr: isStr})
+			rec := decRec{addr: dataPtr(res), ln: len(res), cp: cp, b: res, ref: pat(i, n), isStr: isStr}
+			if isStr && len(res) == 1 {
+				// the Go runtime backs every one-byte string made by conversion with one shared read-only table, so two equal
+				// one-byte strings share that immutable byte: unless it lies in the input, such a result has no memory of its own
+				a, lo := dataPtr(res), dataPtr(in)
+				if a < lo || a >= lo+uintptr(len(in)) {
+					rec.ln, rec.cp = 0, 0
+				}
+			}
+			recs = append(recs, rec)
 		}
 		return recs
 	}
@@ -399,6 +475,14 @@ func checkC16(c *Ctx) {
 			}
 			if span || c.Thorough() {
 				cases = append(cases, mustJSON(IndepCase{Span: span, API: api, Lens: small, Kinds: []int{1, 0}, Seed: 2}))
+			}
+			// container shapes: a header in front, identical contents (repeated keys / values), binary then string and back
+			for _, n := range []int{1, 7, 8, 12, 64, 127, 128, 255, 256, 257, 1000, 4096, 70000} {
+				for _, kinds := range [][]int{{1, 0}, {0, 1}, {0}, {1}} {
+					for _, hdr := range []bool{false, true} {
+						cases = append(cases, mustJSON(IndepCase{Span: span, API: api, Lens: []int{n, n, n, n, n + 1, n}, Kinds: kinds, Seed: int64(n), Hdr: hdr, Same: true}))
+					}
+				}
 			}
 			for i := 0; i < c.Pick(40, 800); i++ {
 				k := 1 + rng.Intn(30)
